@@ -729,6 +729,8 @@ class Interp:
                 else:
                     cp.tag = cell.name
                     cell.value = cp
+                if e.get('moveCtor') and (rec or '').startswith('std::unique_ptr') and 'p' in src.fields:
+                    src.fields['p'].value = NULL  # a moved-from smart pointer holds nothing
                 return
             if not as_base:
                 cell.value = src
@@ -868,22 +870,33 @@ class Interp:
             if isinstance(e, int):
                 return a.scale(mpmath.ldexp(mpmath.mpf(1), e))
             raise Unsupported('ldexp with symbolic exponent at %s' % self.loc(node))
+        if bname in ('fmin', 'fmax', 'std::fmin', 'std::fmax') and len(args) == 2:
+            bname = 'std::min' if bname.endswith('fmin') else 'std::max'  # (NaN arguments aside, which the real-number model does not have)
         if bname in ('std::min', 'std::max') and len(args) == 2:
             x, y = self.eval(args[0]), self.eval(args[1])
             x = x.value if isinstance(x, Cell) else x
             y = y.value if isinstance(y, Cell) else y
             if isinstance(x, int) and isinstance(y, int):
                 return min(x, y) if bname == 'std::min' else max(x, y)
-            if (isinstance(x, Poly) or isinstance(y, Poly)) and isinstance(x, (Poly, int, float)) and isinstance(y, (Poly, int, float)) \
+            if (isinstance(x, (Poly, ITE)) or isinstance(y, (Poly, ITE))) and isinstance(x, (Poly, ITE, int, float)) and isinstance(y, (Poly, ITE, int, float)) \
                     and not getattr(self.hooks, 'opaque_minmax', False):
-                px, py = self.to_poly(x), self.to_poly(y)
-                if px.is_const() and py.is_const():
-                    vx, vy = px.const_value(), py.const_value()
-                    return px if ((vx < vy) == (bname == 'std::min')) or vx == vy else py
-                c = self.compare('<', px, py, node)
-                if isinstance(c, Cond):
-                    return ITE(c, px, py) if bname == 'std::min' else ITE(c, py, px)
-                return (px if c else py) if bname == 'std::min' else (py if c else px)
+                is_min = bname == 'std::min'
+
+                def mm(a, b):
+                    # a guarded operand: the selection is made under each of its guards
+                    if isinstance(a, ITE):
+                        return ITE(a.cond, mm(a.a, b), mm(a.b, b))
+                    if isinstance(b, ITE):
+                        return ITE(b.cond, mm(a, b.a), mm(a, b.b))
+                    pa, pb = self.to_poly(a), self.to_poly(b)
+                    if pa.is_const() and pb.is_const():
+                        va, vb = pa.const_value(), pb.const_value()
+                        return pa if ((va < vb) == is_min) or va == vb else pb
+                    c = self.compare('<', pa, pb, node)
+                    if isinstance(c, Cond):
+                        return ITE(c, pa, pb) if is_min else ITE(c, pb, pa)
+                    return (pa if c else pb) if is_min else (pb if c else pa)
+                return mm(x, y)
         if bname in ('std::move', 'std::forward') and len(args) == 1:
             return self.lval(args[0])
         if name == '__builtin_assume' or name == '__builtin_unreachable' or name == '__builtin_expect':
